@@ -136,6 +136,7 @@ fn enumerate(out: &mut Out, thorough: bool) {
                 out.rec(concat!($tn, "::try_normalize.is_some"), i, 'D', 0.0, if ln > 1e-15 { 1.0 } else { 0.0 }, &[va.try_normalize().is_some() as u32 as f32]);
                 out.rec_str(concat!($tn, "::Debug"), i, &format!("{:?}", va));
                 out.rec_str(concat!($tn, "::Display"), i, &format!("{} {:.3}", va, va));
+                out.rec_str(concat!($tn, "::format flags"), i, &format!("{:#?}|{:.2?}|{:+.1?}|{:10.3?}|{:.3}|{:+.1}|{:12}|{:<8.2}", va, va, va, va, va, va, va, va).replace('\n', "\\n"));
                 for (j, b) in vs.iter().enumerate() {
                     if !thorough && (i + j) % 3 != 0 { continue; }
                     let vb = mk(b);
@@ -204,6 +205,7 @@ fn enumerate(out: &mut Out, thorough: bool) {
         out.rec("Quat::normalize", i, 'T', 14.0 * E, 0.0, &q.normalize().to_array());
         out.rec("Quat::is_normalized", i, 'D', 8.0 * E * n2, ((n2 - 1.0).abs() - 2e-4).abs(), &[q.is_normalized() as u32 as f32]);
         out.rec_str("Quat::Debug", i, &format!("{:?} {}", q, q));
+                out.rec_str("Quat::format flags", i, &format!("{:#?}|{:.2?}|{:+.1?}|{:10.3?}|{:.3}|{:+.1}|{:12}|{:<8.2}", q, q, q, q, q, q, q, q).replace('\n', "\\n"));
         let un = q.normalize();
         out.rec("Mat3A::from_quat", i, 'T', 12.0 * E * n2.max(1.0), 0.0, &Mat3A::from_quat(un).to_cols_array());
         out.rec("Mat4::from_quat", i, 'T', 12.0 * E * n2.max(1.0), 0.0, &Mat4::from_quat(un).to_cols_array());
@@ -262,6 +264,7 @@ fn enumerate(out: &mut Out, thorough: bool) {
                     out.rec(concat!($tn, "::inverse"), i, 'T', sl, 0.0, &m.inverse().to_cols_array());
                 }
                 out.rec_str(concat!($tn, "::Debug"), i, &format!("{:?} {}", m, m));
+                out.rec_str(concat!($tn, "::format flags"), i, &format!("{:#?}|{:.2?}|{:+.1?}|{:10.3?}|{:.3}|{:+.1}|{:12}|{:<8.2}", m, m, m, m, m, m, m, m).replace('\n', "\\n"));
                 for (j, b) in ms.iter().enumerate() {
                     let k = i * ms.len() + j;
                     let cb = b.to_cols_array();
@@ -298,7 +301,9 @@ fn enumerate(out: &mut Out, thorough: bool) {
         let c3 = a3.to_cols_array();
         let c2 = a2.to_cols_array();
         out.rec_str("Affine3A::Debug", i, &format!("{:?} {}", a3, a3));
+                out.rec_str("Affine3A::format flags", i, &format!("{:#?}|{:.2?}|{:+.1?}|{:10.3?}|{:.3}|{:+.1}|{:12}|{:<8.2}", a3, a3, a3, a3, a3, a3, a3, a3).replace('\n', "\\n"));
         out.rec_str("Affine2::Debug", i, &format!("{:?} {}", a2, a2));
+                out.rec_str("Affine2::format flags", i, &format!("{:#?}|{:.2?}|{:+.1?}|{:10.3?}|{:.3}|{:+.1}|{:12}|{:<8.2}", a2, a2, a2, a2, a2, a2, a2, a2).replace('\n', "\\n"));
         for (j, b) in m4s.iter().enumerate() {
             let k = i * m4s.len() + j;
             let b3 = Affine3A::from_mat4(*b);
